@@ -111,8 +111,15 @@ OneSlave == Cardinality({p \in Ports : st.pst[p] = "S"}) <= 1
 \* its parent's announce is not worse than any candidate registered on a port that takes part in the selection
 AllCands == UNION {{[c |-> case.cand[p][i], p |-> p] : i \in 1..Len(case.cand[p])} : p \in {x \in Ports : ~PCfg[x].mo}}
 DsC(x) == [gm |-> G(x.c.g), steps |-> x.c.steps, snd |-> x.c.snd, rcv |-> <<Own, x.p>>]
+\* the lattice combines grandmaster records freely; a case in which one grandmaster identity appears with two different sets of
+\* attributes (or the own identity with attributes that are not the own ones) is not a network that can exist, and "best" is not
+\* well defined for it (the comparison then takes the same-grandmaster branch on data sets that differ in the grandmaster attributes;
+\* cf. the premise of BetterTransitive in ApaBmca) - such cases are still replayed on the real code, but not judged by this invariant
+Consistent ==
+  /\ \A x, y \in AllCands : G(x.c.g)[6] = G(y.c.g)[6] => G(x.c.g) = G(y.c.g)
+  /\ \A x \in AllCands : G(x.c.g)[6] = Own => G(x.c.g) = OwnAttr([class |-> case.cls, acc |-> 254, var |-> 65535])
 ParentIsBest ==
-  (done /\ \E p \in Ports : st.pst[p] = "S") =>
+  (done /\ Consistent /\ \E p \in Ports : st.pst[p] = "S") =>
      \E b \in AllCands : /\ st.ppi = <<b.c.snd, b.c.sp>> /\ st.pst[b.p] = "S"
                          /\ \A o \in AllCands : Rank(Compare(DsC(b), DsC(o))) \in {0, 1}
 \* the outcome does not depend on the order in which the host presents the ports
